@@ -21,8 +21,9 @@ PROPS = {
                 "distinct by (shape, schedule digest)",
         "scenarios": [
             {"name": "c01_hybrid", "quick": 72, "thorough": 3000, "offset": 1, "chunk": 3, "run_timeout": 900, "max_workers": 12, "det_seeds": 3, "min_runs": 25, "min_s": 400},
+            {"name": "c01_deep", "quick": 12, "thorough": 400, "offset": 2, "chunk": 1, "run_timeout": 900, "max_workers": 12, "det_seeds": 1},
         ],
-        "expected_probes": ["matched_pairs", "malicious_runs", "padding_runs"],
+        "expected_probes": ["matched_pairs", "malicious_runs", "padding_runs", "third_aggregation_layer"],
         "components_real": ["protocol::hybrid::{hybrid_protocol, oprf, agg, breakdown_reveal}, ipa_prf::{shuffle, oprf_padding, prf_eval, aggregation, boolean_ops}, basics::shard_fin, both validators, PRSS, Gateway, in-memory MPC+shard transports (TestWorld<WithShards<S>>)"],
         "assumptions": ["the compact step-identifier implementation (cargo feature compact-gate) does not compile together with the repo's shuttle feature, so the 'either implementation of step identifiers' axis is not explored under the controlled scheduler (DESIGN.md section 4, C01)"],
     },
@@ -66,6 +67,10 @@ PROPS = {
             {"name": "c04_mac", "quick": 1500, "thorough": 60000, "offset": 3, "chunk": 50, "prss_reuse_only": True, "run_timeout": 120},
             {"name": "c07_circ", "quick": 800, "thorough": 40000, "offset": 4, "chunk": 25, "prss_reuse_only": True, "run_timeout": 120},
             {"name": "c05_shuffle", "quick": 800, "thorough": 40000, "offset": 5, "chunk": 25, "prss_reuse_only": True, "run_timeout": 120},
+            {"name": "c07_ba", "quick": 400, "thorough": 20000, "offset": 6, "chunk": 40, "prss_reuse_only": True, "run_timeout": 120},
+            {"name": "c07_conv", "quick": 32, "thorough": 1000, "offset": 7, "chunk": 2, "prss_reuse_only": True, "run_timeout": 300},
+            {"name": "c01_deep", "quick": 8, "thorough": 200, "offset": 8, "chunk": 1, "prss_reuse_only": True, "run_timeout": 900, "max_workers": 12, "det_seeds": 1},
+            {"name": "c01_hybrid", "quick": 16, "thorough": 600, "offset": 9, "chunk": 2, "prss_reuse_only": True, "run_timeout": 900, "max_workers": 12, "det_seeds": 1},
         ],
         "expected_probes": ["blocks_compared", "negotiated_over_network", "multi_block_to_offset_cap", "xshard_nodes", "reuse_monitor_runs"],
         "components_real": ["protocol::prss::{Endpoint, crypto::{Generator, UsedSet}, seed}, helpers::{prss_protocol::negotiate, cross_shard_prss::gen_and_distribute}, plus every protocol of the monitored workloads"],
@@ -74,12 +79,18 @@ PROPS = {
         "level": "exploration",
         "rule": "run = seeded Boolean circuit (and/or/xor/add with carry/sat_add/sub/gt/geq) x vector width {1,16,32,256} x operand widths 1..120 incl. unequal widths x semi-honest/DZKP-malicious x "
                 "batched/single validation; one third of the runs enumerate ALL operand pairs of a width <= 4 across records and lanes, the rest use boundary {0,1,max,max-1,2^k,2^k-1} and random operands; "
-                "every run executes under a seeded schedule policy and seeded gateway knobs; non-trivial iff >=1 multi-choice decision; distinct by (shape, schedule digest)",
+                "every run executes under a seeded schedule policy and seeded gateway knobs; non-trivial iff >=1 multi-choice decision; distinct by (shape, schedule digest). "
+                "c07_ba: multiplexer (select) and saturating subtraction on Boolean-array shares of width {3,5,8,16,20,32,64} (all operand pairs for sat_sub at width <= 5; equal / neighbouring operands biased), 1..700 records. "
+                "c07_conv: convert_to_fp25519::<_,256,NP> for NP in {1,16}, 1..3 chunks of 256 values of width {1,8,32,64,100,127}, proof chunk {1,2}. "
+                "c04_mac (fault-free): field multiplication over Fp31/Fp32BitPrime/Fp25519, 16-lane Fp25519 and the pseudonym function g^(1/(k+x))",
         "scenarios": [
             {"name": "c07_circ", "quick": 1600, "thorough": 80000, "offset": 1, "chunk": 25, "run_timeout": 120},
+            {"name": "c07_ba", "quick": 1200, "thorough": 60000, "offset": 2, "chunk": 40, "run_timeout": 120},
+            {"name": "c07_conv", "quick": 96, "thorough": 4000, "offset": 3, "chunk": 3, "run_timeout": 300},
+            {"name": "c04_mac", "quick": 600, "thorough": 30000, "offset": 4, "chunk": 50, "run_timeout": 120},
         ],
-        "expected_probes": ["operand_pairs", "exhaustive_small_width", "unequal_widths", "proof_batches"],
-        "components_real": ["protocol::basics::mul::{semi_honest, dzkp_malicious}, protocol::boolean::or, ipa_prf::boolean_ops::{addition_sequential, comparison_and_subtraction_sequential}, DZKP validators, Gateway, PRSS, in-memory transport"],
+        "expected_probes": ["operand_pairs", "exhaustive_small_width", "unequal_widths", "proof_batches", "ba_select", "ba_sat_sub", "ba_exhaustive", "conv_np1", "conv_np16", "prf_records", "vec16_records"],
+        "components_real": ["protocol::basics::{mul::{semi_honest, dzkp_malicious, malicious}, if_else::select}, protocol::boolean::or, ipa_prf::boolean_ops::{addition_sequential, comparison_and_subtraction_sequential, share_conversion_aby}, ipa_prf::prf_eval, DZKP and MAC validators, Gateway, PRSS, in-memory transport"],
     },
     "C04": {
         "level": "fault_enumeration",
@@ -299,7 +310,7 @@ MANIFEST_TEXT = {
     "C07": {
         "text": "Seeded exploration of the real interactive Boolean building blocks on three simulated helpers in semi-honest and DZKP-malicious mode, with record- and bit-parallelism scheduled by the seed. Oracle: big-integer plaintext function of the operands (incl. carry, saturation, truncation/zero-extension of the second operand) and consistency of the three output sharings. Widths <= 4 are enumerated exhaustively; larger widths use boundary and random operands. Sampling beyond that.",
         "design_ref": "DESIGN.md section 4, C07",
-        "note": "covers multiplication (AND), OR, XOR, add-with-carry, saturating add, subtract, both comparisons at vector widths {1,16,32,256}; field multiplication/PRF/share conversion/aggregation are exercised by the C04 and hybrid scenarios rather than here",
+        "note": "covers multiplication (AND; field multiplication in MAC mode), multiplexer, OR, XOR, add-with-carry, saturating add, subtract, saturating subtract, both comparisons, share conversion to Fp25519 and the pseudonym function; bucket aggregation is exercised end-to-end by the C01 hybrid scenarios (same plaintext oracle) rather than here; boolean_ops::multiplication::integer_mul is private dead code (#[allow(dead_code)]) and is not reached",
         "technique": "deterministic simulation: seeded schedule + operand search over the real circuits with a big-integer reference",
     },
     "C05": {
